@@ -81,6 +81,7 @@ def decode(data: bytes):
         desc["layout"] = {"wide": None, "index": [], "header": {l: "junk" for l in order}, "value_col": "value", "col_order": None, "drop_single": []}
         desc["noheader"] = True
         desc["dup_index"] = False
+    desc["infs"] = [[fdp.ConsumeIntInRange(0, 63), 1 if fdp.ConsumeBool() else -1] for _ in range(fdp.ConsumeIntInRange(0, 2))]
     return desc
 
 
